@@ -687,7 +687,9 @@ func arraySource(ptr ssa.Value, depth int) (ssa.Value, int64) {
 			case *ssa.Store:
 				if resolveFree(x.Addr) == ssa.Value(al) {
 					writes++
-					if ld, isLd := x.Val.(*ssa.UnOp); isLd && token.MUL == ld.Op {
+					/* (An array value a function literal captured stands
+					for the array it was copied from.) */
+					if ld, isLd := resolveFree(x.Val).(*ssa.UnOp); isLd && token.MUL == ld.Op {
 						if s2, n := arraySource(ld.X, depth+1); nil != s2 && n == at.Len() {
 							src = s2
 						}
